@@ -97,7 +97,7 @@ def check_final(pio, pos, n, mode, reps=1):
     return None
 
 
-def caller_scenario(base, nimg, par, chooser, rng):
+def caller_scenario(base, nimg, par, chooser, rng, fork_copy=False):
     """`nimg` FITS pieces of one mosaic that fits into the single level-0 tile, tiled by the real
     MultiTanProcessor serially (reference) and with `par` simulated workers; returns (verdict, sim)"""
     from . import c09
@@ -135,7 +135,7 @@ def caller_scenario(base, nimg, par, chooser, rng):
             with warnings.catch_warnings():
                 warnings.simplefilter("ignore")
                 proc_p.tile(pio_p, parallel=par, cli_progress=False)          # the public entry point (resolves the parallelism, cleans the lock files)
-        sim = simmp.simulate(job, chooser, max_steps=6000, hang_window=300)
+        sim = simmp.simulate(job, chooser, max_steps=6000, hang_window=300, fork_copy=fork_copy)
     bad = None
     if sim.outcome != "ok":
         bad = f"did not complete ({sim.outcome}{': ' + repr(sim.main.exc) if sim.main.exc else ''})"
